@@ -181,6 +181,8 @@ def _fault_values(rng: random.Random, kind: str, width: int, img: bytes, off: in
         v = rng.choice([0, 1, 2, 3, 0xFFFF, 0x7FFF, 0x8000, rng.randint(0, 64), rng.randint(0, 0xFFFF)])
         return struct.pack("<H", v)[:width]
     top = (1 << (8 * width)) - 1
+    if kind == "size_field" and rng.random() < 0.35:
+        return (rng.choice([0, 0, 1, 2, 3])).to_bytes(width, "little")      # sizes that no longer cover the structure itself
     v = rng.choice([0, 1, top, top - 1, top // 2, top // 2 + 1, 255, 256, rng.randint(0, top)]) & top
     return v.to_bytes(width, "little")
 
@@ -262,7 +264,12 @@ def gen(rng: random.Random, tier: str, index: int) -> dict:
     for _ in range(weighted(rng, [(1, 4), (2, 3), (3, 2), (4, 1)])):
         k = weighted(rng, [("target", 7), ("uniform", 2), ("cut", 2.5), ("eio", 1)])
         if k == "target" and tg:
-            t = rng.choice(tg)
+            # pick the kind of field first, then a field of that kind: rare but critical fields (a partition's size word,
+            # the FAT id, ID-area counters) are then hit as often as the many per-file fields
+            kinds_present = sorted({x[0] + (":p" if (x[0] == "size_field" and x[2] == 2) else "") for x in tg})
+            kk = rng.choice(kinds_present)
+            pool = [x for x in tg if x[0] + (":p" if (x[0] == "size_field" and x[2] == 2) else "") == kk]
+            t = rng.choice(pool)
             kind, off, width = t[0], t[1], t[2]
             if kind == "fat_ring":
                 # a cycle of five unused clusters: all five words
